@@ -3,7 +3,7 @@ import z3
 from engine.core import *
 from engine.check import Harness, concrete
 from engine import native, cryptomodel as cm
-from engine.models import F64Text
+from engine.models import F64Text, B
 from harness.c17 import sref, iref, chars_eq
 
 FONT = 'structs::font::Font::'
@@ -122,5 +122,189 @@ class FillKey(FontKey):
 
 HexText = cm.HexText
 
+NF = 'structs::numbering_format::NumberingFormat::'
+NFS = 'structs::numbering_formats::NumberingFormats::'
+NF_ALPHABET = [48, 35, 38, 60, 34, 97, 59, 32, 0xE9]        # 0 # & < " a ; space e-acute
+def sym_code(ctx, tag, maxn):
+    n = ctx.sym_int(tag + 'len', 1, maxn); n = next(k for k in range(1, maxn + 1) if ctx.branch(n == k))
+    cs = [ctx.sym_int('%s%d' % (tag, i), 32, 0xE9) for i in range(n)]
+    for c in cs: ctx.define(z3.Or(*[c == a for a in NF_ALPHABET]))
+    return cs
+def table_code(it, table, idx):
+    """format code registered under idx in a NumberingFormats object, or None"""
+    hm = deref_all(it.call(NFS + 'get_numbering_format', [Ref(table)]))
+    for k, v in hm.items:
+        k = deref_all(k)
+        if (B(it, k == idx) if is_sym(k) or is_sym(idx) else k == idx):
+            return deref_all(it.call(NF + 'get_format_code', [Ref(Box_(deref_all(v)))])).chars
+    return None
+class NumFmtTrip(Harness):
+    name = 'numfmt.write_read'; property_id = 'C05'
+    entry = [NF + 'set_format_code', NFS + 'set_style', NFS + 'write_to', NF + 'write_to', NFS + 'set_attributes', NF + 'set_attributes']
+    classes = {}
+    def __init__(self, tier):
+        self.maxn = 3 if tier == 'quick' else 4
+        self.doc = 'a custom number-format code of 1..%d symbolic characters given to a style, interned by NumberingFormats::set_style, written by NumberingFormats::write_to into an XML event stream and read back by NumberingFormats::set_attributes: the id the cell format refers to carries the same code again' % self.maxn
+        self.bounds = {'code_chars': [1, self.maxn], 'alphabet': [chr(c) for c in NF_ALPHABET], 'table': 'empty before the style is interned', 'xml': 'quick-xml by contract model (escape on write, raw attribute values, unescape)'}
+    def setup(self, it):
+        from engine import xmlmodel
+        cm.install(it); cm.install_digests(it); xmlmodel.install(it); xmlmodel.install_events(it)
+    def run(self, it, ctx, res):
+        from engine import xmlmodel
+        it.world = cm.World()
+        code = sym_code(ctx, 'c', self.maxn)
+        info = {'len': len(code)}
+        try:
+            st = Box_(it.call('<structs::style::Style as std::default::Default>::default', []))
+            nf = it.call('structs::style::Style::get_number_format_mut', [Ref(st)])
+            it.call(NF + 'set_format_code::<&str>', [nf, sref(SStr(code))])
+            if deref_all(it.call(NF + 'get_is_build_in', [nf])): return 'built-in code'
+            table = Box_(it.call('<%s as std::default::Default>::default' % NFS[:-2], []))
+            idx = it.call(NFS + 'set_style', [Ref(table), Ref(st)])
+            rec = xmlmodel.Recorder()
+            it.call(NFS + 'write_to', [Ref(table), Ref(Box_(rec))])
+            evs = rec.events
+            info['events'] = len(evs)
+            if not evs: self.fail(ctx, res, 'format-written', 'no numFmts element', info=info); return
+            back = Box_(it.call('<%s as std::default::Default>::default' % NFS[:-2], []))
+            rd = xmlmodel.XmlReader(evs[1:], trim=True)
+            it.call(NFS + 'set_attributes::<&[u8]>', [Ref(back), Ref(Box_(rd)), Ref(Box_(evs[0].fields[0]))])
+            got = table_code(it, back, idx)
+        except Panic as e:
+            self.fail(ctx, res, 'no-panic', str(e), info=info); return
+        self.oblige(ctx, res, 'same-code-under-the-id-the-cell-refers-to', False if got is None or len(got) != len(code) else chars_eq(got, code), info=dict(info, got_len=None if got is None else len(got)))
+    def case_of(self, v):
+        m = v['model']; c = {'code': ''.join(chr(m['c%d' % i]) for i in range(m['clen'])), 'oblig': v['oblig']}; c['show'] = dict(c); return c
+    def confirm(self, case, profile):
+        r = native.run_cases([['numfmt_roundtrip', case['code']]], profile, timeout_each=60)[0]
+        if r[0] != 'ok': return True, 'number format %r -> %r' % (case['code'], r)
+        got = native.unhx(r[1][0])
+        return got != case['code'], 'cell A1 with number format %r after save and reload: %r' % (case['code'], got)
+class NumFmtIntern(Harness):
+    name = 'numfmt.intern_step'; property_id = 'C05'
+    entry = [NFS + 'set_style', NF + 'get_hash_code']
+    classes = {}
+    def __init__(self, tier):
+        self.maxn = 2 if tier == 'quick' else 3
+        self.doc = 'inductive step of number-format interning: a table holding two custom formats under the ids 176 and 177 (either insertion order) with symbolic codes, and a style whose custom format carries a symbolic id (176..178 or the placeholder 999999) and a symbolic code: the id NumberingFormats::set_style returns is registered with exactly that code, and no existing entry changes' 
+        self.bounds = {'table_entries': 2, 'ids': [176, 177], 'style_format_id': '176..178 or 999999', 'code_chars': [1, self.maxn], 'alphabet': [chr(c) for c in NF_ALPHABET]}
+    def setup(self, it): cm.install(it); cm.install_digests(it)
+    def mk(self, it, code, idx):
+        nf = Box_(it.call('<%s as std::default::Default>::default' % NF[:-2], []))
+        it.call(NF + 'set_format_code::<&str>', [Ref(nf), sref(SStr(code))])
+        if deref_all(it.call(NF + 'get_is_build_in', [Ref(nf)])): return None
+        it.call(NF + 'set_number_format_id_crate', [Ref(nf), idx])
+        return nf
+    def run(self, it, ctx, res):
+        it.world = cm.World()
+        codes = [sym_code(ctx, t, self.maxn) for t in ('a', 'b', 's')]
+        ia = ctx.sym_int("id_a", 176, 177); ib = ctx.sym_int("id_b", 176, 177); ctx.assume(ia != ib)
+        own = ctx.sym_int("id_s", 176, 179); ids = z3.If(own == 179, 999999, own)
+        try:
+            fa, fb, fs = self.mk(it, codes[0], ia), self.mk(it, codes[1], ib), self.mk(it, codes[2], ids)
+            if fa is None or fb is None or fs is None: return 'built-in code'
+            table = Box_(it.call('<%s as std::default::Default>::default' % NFS[:-2], []))
+            it.call(NFS + 'set_numbering_format', [Ref(table), fa.v]); it.call(NFS + 'set_numbering_format', [Ref(table), fb.v])
+            st = Box_(it.call('<structs::style::Style as std::default::Default>::default', []))
+            it.call('structs::style::Style::set_numbering_format', [Ref(st), fs.v])
+            r = it.call(NFS + 'set_style', [Ref(table), Ref(st)])
+            got = table_code(it, table, r)
+            ga, gb = table_code(it, table, ia), table_code(it, table, ib)
+        except Panic as e:
+            self.fail(ctx, res, 'no-panic', str(e)); return
+        eq = lambda x, y: False if x is None or len(x) != len(y) else chars_eq(x, y)
+        self.oblige(ctx, res, 'returned-id-carries-the-style-code', eq(got, codes[2]), info={'returned': str(r)})
+        self.oblige(ctx, res, 'existing-entries-unchanged', z3.And(eq(ga, codes[0]), eq(gb, codes[1])) if (ga is not None and gb is not None and len(ga) == len(codes[0]) and len(gb) == len(codes[1])) else False, info={'returned': str(r)})
+    def case_of(self, v):
+        m = v['model']; f = lambda t: ''.join(chr(m['%s%d' % (t, i)]) for i in range(m[t + 'len']))
+        c = {'table': [[m['id_a'], f('a')], [m['id_b'], f('b')]], 'style': [999999 if m["id_s"] == 179 else m['id_s'], f('s')], 'oblig': v['oblig']}; c['show'] = dict(c); return c
+    def confirm(self, case, profile):
+        t = case['table']; s = case['style']
+        r = native.run_cases([['numfmt_intern', t[0][0], t[0][1], t[1][0], t[1][1], s[0], s[1]]], profile, timeout_each=60)[0]
+        if r[0] != 'ok': return True, 'interning %r -> %r' % (case['show'], r)
+        got = [native.unhx(x) for x in r[1]]
+        return got != [s[1], t[0][1], t[1][1]], 'table %r, style format %r: codes under returned id / first / second entry: %r' % (t, s, got)
+
+COLS = 'structs::columns::Columns::'
+COL = 'structs::column::Column::'
+WIDTHS = [8.38, 12.0, 12.5]
+class ColumnsTrip(Harness):
+    """<cols> run-length compression on write and expansion on read"""
+    name = 'columns.write_read'; property_id = 'C05'
+    entry = [COLS + 'write_to', COLS + 'write_to_column', COL + 'get_hash_code', COLS + 'set_attributes', COL + 'set_attributes']
+    classes = {}
+    fields = ('width', 'hidden', 'style')
+    def __init__(self, tier):
+        self.k = 2 if tier == 'quick' else 3
+        self.span = self.k + 2
+        self.widths = WIDTHS if tier == 'quick' else WIDTHS[:2]
+        self.doc = '%d column records at symbolic pairwise distinct column numbers 1..%d (any order in the collection), each with a width out of %s, hidden and bestFit flags and a default or non-default style, written by the real Columns::write_to (adjacent equal columns are merged into one <col min max> run) into an XML event stream and read back by the real Columns::set_attributes: every column number carries the same %s again and no other column appears' % (self.k, self.span, self.widths, '/'.join(self.fields))
+        self.bounds = {'columns': self.k, 'column_numbers': [1, self.span], 'widths': self.widths, 'hidden': [False, True], 'bestFit': [False, True], 'style': ['default', 'number format 0.00'], 'stylesheet': 'Stylesheet::set_style / get_style stubbed to a two-entry table (default, styled)'}
+    def setup(self, it):
+        from engine import xmlmodel
+        cm.install(it); cm.install_digests(it); xmlmodel.install(it); xmlmodel.install_events(it)
+    def styled(self, it):
+        st = Box_(it.call('<structs::style::Style as std::default::Default>::default', []))
+        nf = it.call('structs::style::Style::get_number_format_mut', [Ref(st)])
+        it.call(NF + 'set_format_code::<&str>', [nf, sref('0.00')])
+        return st
+    def run(self, it, ctx, res):
+        from engine import xmlmodel
+        it.world = cm.World()
+        nums = [ctx.sym_int('col%d' % i, 1, self.span) for i in range(self.k)]
+        for i in range(self.k):
+            for j in range(i): ctx.assume(nums[i] != nums[j])
+        spec = []
+        for i in range(self.k):
+            wi = ctx.sym_int('w%d' % i, 0, len(self.widths) - 1); wi = next(x for x in range(len(self.widths)) if ctx.branch(wi == x))
+            spec.append({'width': self.widths[wi], 'hidden': ctx.branch(ctx.sym_bool('hidden%d' % i)), 'best_fit': ctx.branch(ctx.sym_bool('bestfit%d' % i)), 'style': ctx.branch(ctx.sym_bool('styled%d' % i))})
+        info = {'spec': spec}
+        has_nf = lambda it_, style: it_.call('structs::style::Style::get_number_format', [style]).variant == 1
+        it.stubs = {'structs::stylesheet::Stylesheet::set_style': lambda it_, sheet, style: 1 if has_nf(it_, style) else 0,
+                    'structs::stylesheet::Stylesheet::get_style': lambda it_, sheet, idx: (self.styled(it_).v if B(it_, idx == 1) else it_.call('<structs::style::Style as std::default::Default>::default', []))}
+        try:
+            cols = Box_(it.call('<%s as std::default::Default>::default' % COLS[:-2], []))
+            for i in range(self.k):
+                c = it.call(COLS + 'get_column_mut', [Ref(cols), iref(nums[i])])
+                it.call(COL + 'set_width', [c, spec[i]['width']]); it.call(COL + 'set_hidden', [c, spec[i]['hidden']]); it.call(COL + 'set_best_fit', [c, spec[i]['best_fit']])
+                if spec[i]['style']: it.call(COL + 'set_style', [c, self.styled(it).v])
+            sty = Box_(it.call('<structs::stylesheet::Stylesheet as std::default::Default>::default', []))
+            rec = xmlmodel.Recorder()
+            it.call(COLS + 'write_to', [Ref(cols), Ref(Box_(rec)), Ref(sty)])
+            evs = rec.events
+            info['events'] = len(evs)
+            if not evs: self.fail(ctx, res, 'columns-written', 'no cols element', info=info); return
+            back = Box_(it.call('<%s as std::default::Default>::default' % COLS[:-2], []))
+            rd = xmlmodel.XmlReader(evs[1:], trim=True)
+            it.call(COLS + 'set_attributes::<&[u8]>', [Ref(back), Ref(Box_(rd)), Ref(Box_(evs[0].fields[0])), Ref(sty)])
+            listed = len(deref_all(it.call(COLS + 'get_column_collection', [Ref(back)])))
+            self.oblige(ctx, res, 'no-column-invented-or-lost', listed == self.k, info=dict(info, listed=listed))
+            for i in range(self.k):
+                o = it.call(COLS + 'get_column', [Ref(back), iref(nums[i])])
+                if o.variant != 1: self.oblige(ctx, res, 'column-present', False, info=dict(info, column=i)); continue
+                c = o.fields[0]
+                got = {'width': deref_all(it.call(COL + 'get_width', [c])), 'hidden': deref_all(it.call(COL + 'get_hidden', [c])), 'best_fit': deref_all(it.call(COL + 'get_best_fit', [c])),
+                       'style': has_nf(it, it.call(COL + 'get_style', [c]))}
+                for f in self.fields:
+                    self.oblige(ctx, res, 'same-' + f, got[f] == spec[i][f], info=dict(info, column=i, got=str(got[f])))
+        except Panic as e:
+            self.fail(ctx, res, 'no-panic', str(e), info=info); return
+        finally:
+            it.stubs = {}
+    def case_of(self, v):
+        m = v['model']
+        cols = [{'num': m['col%d' % i], 'width': self.widths[m.get('w%d' % i, 0)], 'hidden': bool(m.get('hidden%d' % i)), 'best_fit': bool(m.get('bestfit%d' % i)), 'styled': bool(m.get('styled%d' % i))} for i in range(self.k)]
+        c = {'columns': cols, 'oblig': v['oblig']}; c['show'] = dict(c); return c
+    def confirm(self, case, profile):
+        spec = ';'.join('%d,%s,%d,%d,%d' % (c['num'], c['width'], c['hidden'], c['best_fit'], c['styled']) for c in case['columns'])
+        r = native.run_cases([['columns_roundtrip', spec]], profile, timeout_each=60)[0]
+        if r[0] != 'ok': return True, 'columns %r -> %r' % (case['columns'], r)
+        before, after = native.unhx(r[1][0]), native.unhx(r[1][1])
+        if 'best_fit' not in self.fields:
+            import re as _re
+            before, after = _re.sub(r'bf=\d', '', before), _re.sub(r'bf=\d', '', after)
+        return before != after, 'column settings before save %r, after reload %r' % (before, after)
+
 def harnesses(tier):
-    return [FontKey(tier), FillKey(tier)]
+    return [FontKey(tier), FillKey(tier), NumFmtTrip(tier), NumFmtIntern(tier), ColumnsTrip(tier)]
+OPTIONS = {'want_smir': True}
